@@ -287,6 +287,17 @@ def run(ctx):
         ctx.construct(tu, extra='stays paused while a child is paused'),
         'a task can go back to RUNNING while one of its child executions '
         'is still PAUSED', ctx.loc(tu))
+    INu, ku = sd.analyze(ucfg, tu, [('self.task_ex.state', sd.state_domain),
+                                    ('state', sd.state_domain)],
+                         kill=lambda c: ())
+    for n in ss:
+        pairs = {(v[0], v[1]) for v in INu[n.id]}
+        need = {(S['RUNNING'], S['PAUSED']), (S['PAUSED'], S['RUNNING'])}
+        r3.check(need <= pairs, ctx.construct(tu, extra='RUNNING <-> PAUSED '
+                                              'admitted'),
+                 'Task.update does not reach set_state for the moves %s (a '
+                 'paused / resumed sub-workflow would not pause / resume '
+                 'its parent task)' % sorted(need - pairs), ctx.loc(tu))
     for name in ('pause', 'resume'):
         f = prog.func(WF + '.' + name)
         cfg = ctx.cfg(f)
